@@ -189,6 +189,11 @@ class Interp:
             if len(tr) != len(mt) or any(M.same(m, d) for m, d in zip(tr, mt)):
                 self._fail('model-track-contents', f'after {op}: track {ti} is {list(tr)!r}, model {mt}', op=op[0])
                 return
+            # the track's name is, at any moment, that of its first track_name message ('' without one)
+            want_name = next((d['name'] for d in mt if d['type'] == 'track_name'), '')
+            if tr.name != want_name:
+                self._fail('track-name', f'after {op}: track {ti}.name is {tr.name!r}, contents say {want_name!r}', op=op[0])
+                return
 
     def step(self, op):
         kind = op[0]
